@@ -18,6 +18,7 @@ PLAN = {
         ("x3x1", 2, "line", 1), ("x22", 2, "line", 1), ("x3", 16, "line", 1),
         ("c3p", 2, "line", 1), ("x3p", 2, "line", 1), ("c3nt", 2, "line", 1),
         ("c3x1@reuse", 2, "line", 0), ("c22@reuse", 2, "line", 0),
+        ("c3@afterint", 2, "line", 1), ("x3@afterint", 2, "line", 1), ("x3huge", 2, "line", 1), ("x2huge", 2, "line", 2),
         ("c8", 1, "line", 0), ("c8", 2, "line", 0), ("x8", 2, "line", 0),
         ("c3", 2, "instruction", 1), ("x3", 2, "instruction", 1),
         ("c3x1", 1, "line", 1),
@@ -43,6 +44,8 @@ PLAN = {
     ] + [
         ("x3big", 2, "line", 0), ("c3big", 2, "line", 0), ("x1300", 2, "line", -1), ("c1300", 3, "line", -1), ("x1300", 16, "line", -1),
         ("c3x1@reuse", 2, "line", 1), ("c22@reuse", 3, "line", 1), ("c2x2@reuse", 2, "line", 1), ("c3@reuse", 2, "line", 1),
+        ("c3@afterint", 2, "line", 2), ("x3@afterint", 2, "line", 2), ("c3@afterint", 3, "line", 1), ("x2x2@afterint", 2, "line", 1),
+        ("x3huge", 2, "line", 2), ("x3huge", 3, "line", 1), ("x3huge", 2, "instruction", 1), ("x2huge", 2, "line", 2), ("x2huge", 2, "instruction", 2),
     ],
 }
 SHARDS = {"quick": 8, "thorough": 32}
@@ -83,6 +86,18 @@ def _change_first_dimension(cube):
 def _run(hname, parallel, w=None):
     base = hname.split("@")[0]
     cube, funcs = harness.make(base, parallel=parallel, poolsize=w)
+    if hname.endswith("@afterint"):
+        # the SAME cube and function objects had an earlier evaluation cut short by the caller's interrupt callback (a passed deadline: it
+        # raises for every worker that asks); the callback is then removed and the cube evaluated again
+        def deadline_passed():
+            raise StopIteration("deadline passed")
+
+        cube.check_interrupt = deadline_passed
+        try:
+            cube.calculate(funcs)
+        except StopIteration:
+            pass
+        cube.check_interrupt = None
     out = cube.calculate(funcs)
     if hname.endswith("@reuse"):
         # the SAME cube and function objects evaluated again after its first dimension was changed in place
